@@ -331,6 +331,7 @@ def main():
         return "[%s]" % ";".join("ascii_of_nat %d" % x for x in b) if b else "[]"
     from pydap.lib import _quote
     g_cases, g_stats = [], {"grids": 0, "narrowed": 0, "unnamed_or_repeated_dims": 0, "remote": 0}
+    u_cases = []
     DIMPOOL = ["m0", "m1", "m2", "lat deg", "x[1]", "t-z", "lon"]
     for gi in range(150 if T == "quick" else 2000):
         rank = rng.randint(1, 3)
@@ -345,7 +346,11 @@ def main():
         dsg = DatasetType("d")
         gg = GridType("g")
         gg["a"] = BaseType("a", np.arange(int(np.prod(shape)), dtype="i4").reshape(shape), dims=dims)
-        for k in range(rank):
+        # (with usable dimension names the maps may be DECLARED in any order: a map belongs to the axis it names)
+        decl_order = list(range(rank))
+        if mode == "named" and len(set(dims)) == rank and rng.random() < 0.6:
+            rng.shuffle(decl_order)
+        for k in decl_order:
             gg[mapnames[k]] = BaseType(mapnames[k], np.arange(shape[k], dtype="i4"))
         dsg["g"] = gg
         # (names with brackets are not used over the wire: the projection grammar reads them as hyperslabs)
@@ -358,6 +363,31 @@ def main():
                 direct.append({"law": "dataset opens", "error": repr(e)[:200]})
                 continue
             g_stats["remote"] += 1
+            # the same grid opened with a hyperslab in the URL: the hyperslab found on the proxy of every map vs the model's pairing
+            pre_g = []
+            for n_ in shape:
+                a_ = rng.randrange(n_)
+                pre_g.append((a_, rng.randint(1, 2), rng.randrange(a_, n_)))
+            try:
+                cg = open_url("http://localhost:8001/?g" + "".join("[%d:%d:%d]" % t_ for t_ in pre_g), application=BaseHandler(dsg),
+                              output_grid=True)["g"]
+                decl = list(cg.maps.keys())
+                obs_u = []
+                for m_ in decl:
+                    sl_ = cg[m_].data.slice[0]
+                    obs_u.append("(Some (ISlice (mkSlice (Some %d) (Some %d) (Some %d))))" % (sl_.start, sl_.stop, sl_.step or 1))
+                    kk = [_quote(x_) for x_ in mapnames].index(m_)
+                    want_u = np.arange(shape[kk])[pre_g[kk][0]:pre_g[kk][2] + 1:pre_g[kk][1]].tolist()
+                    got_u = np.asarray(cg[m_].data[:]).tolist()
+                    if got_u != want_u and len(direct) < 12:
+                        direct.append({"law": "a grid opened with a hyperslab in the URL returns its maps sliced along the matching axes",
+                                       "dims": list(dims), "maps_declared": decl, "url_hyperslab": pre_g, "map": m_, "got": got_u, "want": want_u})
+                u_cases.append("(%s, %s, %s, [%s])" % (
+                    clist(list(dims), cchars),
+                    clist([slice(a_, b_ + 1, s_) for a_, s_, b_ in pre_g], c_item), clist(decl, cchars), "; ".join(obs_u)))
+                g_stats["opened_with_url_hyperslab"] = g_stats.get("opened_with_url_hyperslab", 0) + 1
+            except Exception as e:  # noqa
+                direct.append({"law": "a grid can be opened with a hyperslab in the URL", "dims": list(dims), "error": repr(e)[:200]})
         else:
             gobj = gg
         listed = list(range(rank))
@@ -403,6 +433,15 @@ def main():
     except RuntimeError as e:
         r.violation({"kind": "correspondence-broken", "error": str(e)[-1500:], "theorem": "grid map pairing correspondence"}, found=False)
         badg = []
+    try:
+        badu = coq_eval_mismatches(PID + "_urlmaps", "GridSelCases", "chk_url_maps", u_cases,
+                                   "list chars * list item * list chars * list (option item)", shard=200)
+    except RuntimeError as e:
+        r.violation({"kind": "correspondence-broken", "error": str(e)[-1500:], "theorem": "URL hyperslab / map pairing correspondence"}, found=False)
+        badu = []
+    if not direct and badu:
+        r.violation({"kind": "correspondence-broken", "theorem": "hyperslabs add_dap2_proxies stores on the maps of a pre-constrained grid vs "
+                     "the Gallina pairing (model/GridSel.v pair_maps)", "case": u_cases[badu[0]], "n_mismatches": len(badu)}, found=False)
     if not direct and badg:
         r.violation({"kind": "correspondence-broken", "theorem": "index branch of GridType.__getitem__ vs the Gallina model (model/GridSel.v, "
                      "C02_grid_maps_follow_their_axes)", "case": g_cases[badg[0]], "n_mismatches": len(badg)}, found=False)
@@ -421,6 +460,8 @@ def main():
     r.extra["cases"] = {"query": len(q_cases), "dap4_query": len(q4_cases)}
     r.extra["mismatches"] = {"query": len(bad), "dap4_query": len(bad4), "grid_maps": len(badg)}
     r.extra["cases"]["grid_maps"] = len(g_cases)
+    r.extra["cases"]["url_hyperslab_map_pairing"] = len(u_cases)
+    r.extra["mismatches"]["url_hyperslab_map_pairing"] = len(badu)
     r.cov["rule"] = ("a case is (shape of rank 1-3 with extents 1-6, URL pre-constraint or none, variable kind array/grid with output_grid "
                      "on/off or DAP4 variable in root/group, index tuple built from per-axis forms incl. negatives, out-of-range bounds, "
                      "Ellipsis, short tuples) with a non-empty numpy selection; distinct = distinct tuple")
